@@ -99,6 +99,18 @@ message_defs:
 """
 
 
+def _fields_first(name: str, mid: int, fields: Fields) -> str:
+    """the same definition with `fields:` written before `id:` (YAML mappings are unordered for the author)"""
+    out = ["message_defs:", f"  {name}:"]
+    if fields:
+        out.append("    fields:")
+        out += [f"      {fn}: {ft}" for fn, ft in fields]
+    else:
+        out.append("    fields: null")
+    out.append(f"    id: {mid}")
+    return "\n".join(out) + "\n"
+
+
 def relocations(name: str, mid: int, fields: Fields) -> List[Tuple[str, Dict[str, Any], str, Dict[str, Any]]]:
     sd = {"struct_defs": STRUCTS}
     md = msg_section(name, mid, fields)
@@ -112,6 +124,7 @@ def relocations(name: str, mid: int, fields: Fields) -> List[Tuple[str, Dict[str
         ("import-order", {"root.yaml": {"imports": ["structs.yaml", "u.yaml", "defs.yaml"]}, "structs.yaml": sd, "u.yaml": {"message_defs": {"U1": {"id": 3980, "fields": None}}},
                           "defs.yaml": {"imports": ["structs.yaml"], "message_defs": md}}, "root.yaml", {}),
         ("comments", {"root.yaml": {"imports": ["structs.yaml", "c.yaml"]}, "structs.yaml": sd, "c.yaml": COMMENT_TEXT.format(body=body)}, "root.yaml", {}),
+        ("fields-before-id", {"root.yaml": {"imports": ["structs.yaml", "k.yaml"]}, "structs.yaml": sd, "k.yaml": _fields_first(name, mid, fields)}, "root.yaml", {}),
         ("with-core", {"root.yaml": {**sd, "message_defs": md}}, "root.yaml", {"import_coredefs": True}),
         ("no-autopad-validate", {"root.yaml": {**sd, "message_defs": md}}, "root.yaml", {"validate_alignment": False}),
     ]
